@@ -1,22 +1,48 @@
 """C31 — tensor products equal NumPy; qr / svd of tall-and-skinny / short-and-fat chunked matrices are correct.
 
-Monitor 1 (tensor): NumPy differential.  tensordot (axes as int, pair of ints, pair of lists incl. negative
-entries), dot, matmul (`@`, broadcast batch dimensions, 1-d operands), outer, einsum (random subscripts:
-repeated indices inside one operand, indices shared by several operands, ellipsis with broadcasting, implicit and
-explicit output, optimize flag) and inner (absent from the pinned dask: counted as unsupported) are run on
-dask.array for random chunkings of every operand and compared with NumPy: shape, dtype, values.  Integer inputs are
-compared exactly, floating ones with the reassociation tolerance 8*eps*n (n = number of contracted terms) scaled by
-the operand magnitudes.
+Monitor 1 (tensor): NumPy differential.  tensordot (axes omitted, as int 0-3, pair of ints, pair of lists / tuples /
+one of each incl. negative entries), dot (function, method, ``np.dot`` dispatch, 0-d operands), vdot (conjugation,
+operands of different shapes), matmul (`@`, ``da.matmul``, ``np.matmul``, broadcast batch dimensions, 1-d operands),
+outer (0-d to 3-d operands), einsum (random subscripts: repeated indices inside one operand, indices shared by several
+operands, ellipsis with broadcasting, a named index of length 1 broadcast against a longer one, implicit and explicit
+output, spaces and upper-case letters in the subscripts, interleaved operand/sublist call format, `optimize` incl. an
+explicit contraction path, `dtype=` with `casting=`, `split_every` int / dict) and inner (absent from the pinned dask:
+counted as unsupported) are run on dask.array for random chunkings of every operand - also with one operand left as
+a NumPy array - and compared with NumPy: shape, dtype, values.  Integer inputs are compared exactly, floating ones
+with the reassociation tolerance 8*eps*n (n = number of contracted terms) scaled by the operand magnitudes.
+Size classes: axes of length 0, contracted axes of length 6-12 cut into >= 5 blocks (an intermediate combine level of
+the block sum exists), three contracted axes.
 
 Monitor 2 (decompositions): algebraic oracle on the computed factors, tolerance 64*eps(dtype)*||A||_F:
 * qr:  Q has shape (m, k), R (k, n), k = min(m, n); Q^H Q = I; R upper triangular; Q R = A.
 * svd: U (m, k), s (k,), V (k, n); U diag(s) V = A; s non-negative, descending, equal to NumPy's singular values;
-       U^H U = I and V V^H = I.
-Chunkings: one column block with >= 2 row blocks (tsqr; irregular row blocks, blocks with fewer rows than columns,
-chunkings that make tsqr recurse), one row block (sfqr / svd through tsqr of the transpose), one single block.  A
-chunking outside the documented preconditions must be refused by dask (ValueError naming the preconditions ->
-rejected, counted; NotImplementedError for two-dimensional chunk grids -> unsupported).
-Matrices: random normal float64/float32, rank deficient, zero, badly scaled.
+       U^H U = I and V V^H = I; with coerce_signs=True (the documented sign normalisation) no row of V sums to a
+       negative number; full_matrices=True must raise NotImplementedError (documented), never return reduced factors.
+Entry points: da.linalg.qr / svd, np.linalg.qr / svd dispatch, da.linalg.tsqr / sfqr called directly (tsqr also on a
+single block and with compute_svd=True).
+Chunkings: one column block with >= 2 row blocks (tsqr; irregular row blocks, blocks with fewer rows than columns -
+counted separately when such a block is not the last one of its stacked group in the recursive regime -, blocks of
+height 0, chunkings that make tsqr recurse once or several times, row blocks of UNKNOWN height (boolean-mask
+selection of every row)), one row block (sfqr / svd through tsqr of the transpose, also with more rows than columns
+and with column blocks of width 0 / unknown width), one single block, square matrices on every path.  A chunking
+outside the documented preconditions must be refused by dask (ValueError naming the preconditions -> rejected,
+counted); NotImplementedError for two-dimensional chunk grids -> unsupported.
+Matrices: random normal float64/float32/complex128, integer dtype, rank deficient, zero, badly scaled.
+
+Monitor 3 (svd_compressed): only in the regime where the randomized algorithm is exact in exact arithmetic
+(min(m, n) <= 20, so the compression level is min(m, n) whatever k / n_oversamples): any 2-d chunk grid, k,
+iterator power / QR, n_power_iter 0-2, n_oversamples, seed as int / RandomState, compute=, coerce_signs.  U (m, k),
+s (k,), V (k, n); orthonormal; s equal to NumPy's k largest singular values; ||A - U diag(s) V||_F equal to the
+optimal rank-k error.  Tolerance 64*eps*||A||_F times the condition number of the Gaussian test matrix (re-drawn with
+the same seed: evidence for the tolerance only) and, for power iterations, times (s_1/s_r)^(2p); a case whose
+tolerance exceeds 1e-3*||A|| only checks shapes and orthonormality.
+
+Monitor 4 (norm): NumPy differential of da.linalg.norm / np.linalg.norm dispatch: ord None / 'fro' / 'nuc' / +-inf /
+0 / +-1 / +-2 / 3 / 0.5 / -3, axis None / int / pair (negative entries, reversed order), keepdims, 1-d to 4-d.
+
+Monitor 5 (scipy-backed): cholesky of ONE block (the only scipy-free path; `lower`) is checked algebraically;
+cholesky of several blocks, lu, solve, solve_triangular, inv and lstsq need scipy.linalg.solve_triangular / lu, which is
+absent here: a seeded handful of calls is made and counted as environment-limited (ModuleNotFoundError: scipy).
 
 Calibration
 * einsum with mixed float32 / wider operands: np.einsum itself contracts in the narrower dtype depending on `optimize`
@@ -26,15 +52,31 @@ Calibration
 * da.inner does not exist in the pinned tree (np.inner falls back to NumPy): counted as unsupported.
 * A ValueError naming the documented tsqr/sfqr preconditions is a refusal (rejected, counted), any other exception a
   violation; NotImplementedError (two-dimensional chunk grid) is unsupported.
-* Labels carry only the code path (tsqr / sfqr / tsqr-of-transpose / single, recursive, shape-contradicts-chunking);
-  matrix flavour and short blocks are in the witness detail, so one mechanism does not fan out into many labels.
+* Labels carry only the code path (tsqr / sfqr / tsqr-of-transpose / single, recursive, shape-contradicts-chunking,
+  unknown-chunks); matrix flavour, entry point and short blocks are in the witness detail, so one mechanism does not fan
+  out into many labels.
+* Narrow integer results: NumPy wraps around in the narrow dtype, dask sums in 64 bits (known dtype finding); the values
+  are compared after casting the dask result to NumPy's dtype (modular arithmetic commutes with the cast).  bool x bool
+  is a logical product in NumPy; dask counts (label `<op>:bool-operands:dtype`); values compared as `count != 0`.
+* Unknown row heights are only generated with m >= n (n >= m for the transposed path): tsqr documents in its source
+  that it has to assume m >= n when the shape is unknown (svd of a 3 x 12 matrix with unknown row chunks cannot know
+  that it must truncate).
+* einsum interleaved format uses sublist integers 0-25 only: for integers >= 26 NumPy's C parser orders an implicit
+  output by integer while its own einsum_path (and dask) order by the letter the integer is mapped to.
+* einsum, dtype= on a subscript whose result is a view ('j', 'ii->i', 'ij->ji'): np.einsum ignores the keyword, the
+  computed blocks have NumPy's dtype while the lazy dtype is the requested one; values and dtype are still compared with
+  NumPy, the lazy-dtype comparison is skipped for exactly this case (false alarm `einsum:dtype-keyword:lazy-dtype`).
+* einsum with a bool operand next to non-bool ones and optimize != False: NumPy reduces the bool operand alone first
+  (logical any), its result differs from its own optimize=False result; such a case has no reference (rejected, counted).
+* norm is not generated on arrays with an axis of length 0 (np.linalg.norm's `max` over nothing is special-cased).
 
 Sibling facet (vf/mon/siblings.py): every case is also built a second time with ONE result-relevant parameter changed
-(tensordot over other axes, einsum with another output subscript, svd with the other coerce_signs (s may be shared)).
-The two lazily built collections must not share output keys unless their stand-alone values are equal (label
-``<op>:<param>-not-in-name:siblings-share-keys``); for a seeded ~15 % of the cases both are also computed in one graph and
-compared with their stand-alone values (``<op>:<param>:differs-when-computed-with-sibling``).  Counters siblings_built /
-siblings_computed_together / siblings_with_different_values have floors.
+(tensordot over other axes, einsum with another output subscript or another dtype=, svd with the other coerce_signs
+(s may be shared), svd_compressed with another k / n_power_iter, norm with another ord / keepdims / axis, cholesky with
+the other `lower`).  The two lazily built collections must not share output keys unless their stand-alone values are
+equal (label ``<op>:<param>-not-in-name:siblings-share-keys``); for a seeded ~15 % of the cases both are also computed in
+one graph and compared with their stand-alone values (``<op>:<param>:differs-when-computed-with-sibling``).  Counters
+siblings_built / siblings_computed_together / siblings_with_different_values have floors.
 """
 from __future__ import annotations
 
@@ -48,61 +90,57 @@ from ..mon import siblings as S
 from ..mon.compare import compare_arrays, lazy_meta_mismatch
 
 PROP = "C31"
-RULE = ("cases = (function, operand shapes/dtypes/data seeds, chunking of every operand, axes spec / einsum subscripts / "
-        "matrix flavour). Complete part: tensordot of a (3,2) with a (2,3) array over every chunking of both operands for "
-        "axes=1 and axes=([0,1],[1,0]); every row chunking of a (6,2) matrix and every column chunking of a (2,6) matrix "
-        "under qr and svd. Random part: tensordot/dot/matmul/outer/einsum/inner with 1-3 operands of 0-4 dimensions with "
-        "lengths 1-5; qr/svd of matrices up to 24x8 (tall), 8x24 (fat). non-trivial = some operand axis split into >= 2 "
-        "chunks; distinct = distinct (function, shapes, dtypes, chunks, spec).")
-ASSUMPTIONS = ["NumPy 2.x defines the expected tensor products and singular values",
+RULE = ("cases = (function, call form, operand shapes/dtypes/data seeds, chunking of every operand, axes spec / einsum "
+        "subscripts and keywords / matrix flavour / norm ord, axis, keepdims). Complete part: tensordot of a (3,2) with a "
+        "(2,3) array over every chunking of both operands for axes=1 and axes=([0,1],[1,0]); every row chunking of a (6,2) "
+        "matrix and every column chunking of a (2,6) matrix under qr and svd. Random part: tensordot/dot/vdot/matmul/outer/"
+        "einsum/inner with 1-4 operands of 0-4 dimensions with lengths 0-5 (one axis 6-12 in a seventh of the cases); "
+        "qr/svd of matrices up to 80x3 (tall), 8x24 (fat); svd_compressed up to 12x12 on any chunk grid; norm of 1-d to "
+        "4-d arrays; cholesky. non-trivial = some operand axis split into >= 2 chunks; distinct = distinct (function, "
+        "shapes, dtypes, chunks, spec, keywords).")
+ASSUMPTIONS = ["NumPy 2.x defines the expected tensor products, norms and singular values",
                "sync scheduler (threads for a tenth)",
-               "floating tolerance: 8*eps*n reassociation bound for products, 64*eps*||A||_F for decompositions"]
-BUDGET = {"quick": 150, "thorough": 600}
-FLOORS = {"quick": {"evaluations": 1300, "distinct_nontrivial": 1100,
-                    "counters": {"compared": 1200, "compared_tensordot": 250, "compared_einsum": 210, "compared_matmul": 160,
-                                 "compared_dot": 70, "compared_outer": 45, "compared_qr_tsqr": 150, "compared_qr_sfqr": 80,
-                                 "compared_svd_tsqr": 150, "compared_svd_tsqr-of-transpose": 60, "tsqr_recursive": 120,
-                                 "tsqr_short_blocks": 220, "rank_deficient_or_zero": 180, "einsum_repeated_index": 90,
-                                 "einsum_ellipsis": 60, "tensordot_negative_left_axis": 18},
-                    "sets": {"einsum_specs": 200}, "max_skipped_fraction": 0.25},
-          "thorough": {"evaluations": 20000, "distinct_nontrivial": 16000,
-                       "counters": {"compared": 19000, "compared_tensordot": 3400, "compared_einsum": 3900, "compared_matmul": 2600,
-                                    "compared_qr_tsqr": 2300, "compared_qr_sfqr": 1100, "compared_svd_tsqr": 2400,
-                                    "compared_svd_tsqr-of-transpose": 800, "tsqr_recursive": 1900, "tsqr_short_blocks": 3200,
-                                    "rank_deficient_or_zero": 3000, "einsum_repeated_index": 1500, "einsum_ellipsis": 1000,
-                                    "tensordot_negative_left_axis": 400},
-                       "sets": {"einsum_specs": 2400}, "max_skipped_fraction": 0.25}}
-# sibling facet (vf/mon/siblings.py): ~45 % of the smallest count of the five quick seeds on the unchanged tree; thorough =
-# quick floor x (thorough / quick stream size) x 0.6.  A run in which the facet never executed is INCONCLUSIVE.
-FLOORS["quick"]["counters"].update({"siblings_built": 590, "siblings_computed_together": 83, "siblings_with_different_values": 190})
-FLOORS["thorough"]["counters"].update({"siblings_built": 5600, "siblings_computed_together": 780, "siblings_with_different_values": 1800})
+               "floating tolerance: 8*eps*n reassociation bound for products and norms, 64*eps*||A||_F for decompositions",
+               "svd_compressed: the tolerance is widened by the condition number of the re-drawn Gaussian test matrix"]
+BUDGET = {"quick": 200, "thorough": 800}
+FLOORS = {"quick": {"evaluations": 1300, "distinct_nontrivial": 1100, "counters": {}, "sets": {"einsum_specs": 200},
+                    "max_skipped_fraction": 0.25},
+          "thorough": {"evaluations": 20000, "distinct_nontrivial": 16000, "counters": {}, "sets": {"einsum_specs": 2400},
+                       "max_skipped_fraction": 0.25}}
 EXHAUSTIVE_SPACE = ("all chunkings of (3,2)x(2,3) under tensordot axes=1 and axes=([0,1],[1,0]); all 32 row chunkings of a "
                     "(6,2) matrix and all 32 column chunkings of a (2,6) matrix under qr and svd")
-CLAIM = ("Every generated tensor product was computed by the real dask.array and compared with NumPy (shape, dtype, values "
-         "within the reassociation tolerance); every generated qr/svd was computed by the real dask.array.linalg and its "
-         "factors checked algebraically (orthonormality, triangularity, reconstruction, singular values vs NumPy). held = "
-         "no mismatch and no dask exception inside the domain on the executions observed.")
-LEVEL_NOTE = ("NumPy is the reference; only the functions the statement names (scipy-backed lu/solve/cholesky and "
-              "svd_compressed are outside); da.inner does not exist in the pinned tree")
-TECHNIQUE = "runtime monitoring: NumPy differential for tensor products, algebraic factor oracle for qr/svd"
+CLAIM = ("Every generated tensor product and norm was computed by the real dask.array and compared with NumPy (shape, dtype, "
+         "values within the reassociation tolerance); every generated qr/svd/svd_compressed/one-block cholesky was computed "
+         "by the real dask.array.linalg and its factors checked algebraically (orthonormality, triangularity, "
+         "reconstruction, singular values vs NumPy). held = no mismatch and no dask exception inside the domain on the "
+         "executions observed.")
+LEVEL_NOTE = ("NumPy is the reference; lu/solve/solve_triangular/inv/lstsq and cholesky of more than one block need scipy, "
+              "which is absent: they are called and counted as environment-limited, not checked; svd_compressed only where "
+              "it is exact (min(m,n) <= 20); da.inner does not exist in the pinned tree")
+TECHNIQUE = "runtime monitoring: NumPy differential for tensor products and norms, algebraic factor oracle for qr/svd"
 PENDING = {
-    "tensordot:negative-left-axis:shape":
-        "tensordot with a negative entry in the left axes list re-inserts the contracted axis at the wrong position when "
-        "the right operand has no free dimension after it (wrong result shape)",
-    "qr:tsqr&shape-contradicts-chunking:shape":
-        "qr of a one-column-block matrix with fewer rows than columns: Q is declared with chunks (rows, rows) but only one "
-        "block column exists, the computed Q has its columns duplicated",
     "einsum:repeated-index&axes-chunked-differently:ValueError":
         "einsum with an index repeated inside one operand ('ii', 'kk->k') raises unless both axes are chunked identically",
     "tensordot:int-narrower-than-64-bit:dtype": "int32 x int32 tensordot returns int64 (NumPy: int32): the blockwise product is summed with the platform integer",
     "dot:int-narrower-than-64-bit:dtype": "same mechanism through dot -> tensordot",
     "matmul:int-narrower-than-64-bit:dtype": "int32 @ int32 returns int64 (NumPy: int32): _sum_wo_cat derives the dtype from a sum",
-    "einsum:int-narrower-than-64-bit:dtype": "int32 einsum with a contraction returns int64 (NumPy: int32)",
+    "einsum:int-narrower-than-64-bit:dtype": "int32 einsum with a contraction returns int64 (NumPy: int32), also with an explicit dtype='int32'",
+    "tensordot:bool-operands:dtype": "bool x bool tensordot returns the int64 count of True products (NumPy: bool, logical)",
+    "dot:bool-operands:dtype": "same through dot",
+    "matmul:bool-operands:dtype": "bool @ bool returns int64 counts when the contracted axis has several blocks",
+    "einsum:bool-operands:dtype": "bool einsum with a contraction returns int64 counts",
+    "dot:0-d-operand:IndexError@array/routines.py:tensordot": "da.dot with a 0-d operand raises (NumPy multiplies)",
+    "norm:integer-or-bool-input:dtype": "norm of an integer / bool array is computed in the integer dtype (NumPy converts to float first)",
+    "norm:integer-or-bool-input:TypeError": "same mechanism: a negative ord raises for integer input",
+    "norm:ndim>2&axis-None&ord-None:ValueError": "norm(x) of a 3-d array with default arguments raises (NumPy: 2-norm of x.ravel())",
 }
 
-TD = ["float64", "float64", "float32", "int64", "int32", "complex128"]
+TD = ["float64"] * 4 + ["float32"] * 2 + ["int64"] * 2 + ["int32"] * 2 + ["complex128"] * 2 + ["complex64", "uint8", "bool"]
+VD = ["float64", "float64", "float32", "complex128", "complex128", "complex64", "int64"]
+ND = ["float64"] * 5 + ["float32"] * 2 + ["complex128"] * 2 + ["complex64", "int64", "bool"]
 MD = ["float64", "float64", "float64", "float32"]
 MKINDS = ["normal", "normal", "normal", "rankdef", "rankdef", "zero", "scaled", "intvalued"]
+SCIPY_FNS = ["lu", "solve", "solve-pos", "inv", "solve_triangular", "lstsq", "cholesky-blocks"]
 
 
 # ---------------------------------------------------------------------------------------------
@@ -126,95 +164,221 @@ def cases(tier, seed):
                    "dtype": "float64", "seed": 11, "flavour": "tall"}
             yield {"space": "exhaustive", "kind": fn, "m": 2, "n": 6, "c": [[2], list(comp)], "mk": "normal",
                    "dtype": "float64", "seed": 12, "flavour": "fat"}
-    n = 2600 if tier == "quick" else 45000
-    kinds = ["tensordot"] * 5 + ["dot"] * 2 + ["matmul"] * 4 + ["outer"] + ["einsum"] * 6 + ["qr"] * 6 + ["svd"] * 6
+    n = 4200 if tier == "quick" else 66000
+    kinds = (["tensordot"] * 12 + ["dot"] * 5 + ["vdot"] * 3 + ["matmul"] * 8 + ["outer"] * 3 + ["einsum"] * 16 + ["qr"] * 14
+             + ["svd"] * 14 + ["svdc"] * 5 + ["norm"] * 9 + ["cholesky"])
     for i in range(n):
         kind = rng.choice(kinds)
-        if rng.random() < 0.01:
+        u = rng.random()
+        if u < 0.008:
             kind = "inner"
+        elif u < 0.014:
+            kind = "scipy"
         d = {"kind": kind, "seed": rng.randrange(2 ** 31), "threads": rng.random() < 0.1}
         if kind in ("qr", "svd"):
-            d.update(_gen_matrix(rng))
-            if kind == "svd":
-                d["coerce_signs"] = rng.random() < 0.7
+            d.update(_gen_matrix(rng, kind))
         elif kind == "tensordot":
             d.update(_gen_tensordot(rng))
         elif kind in ("dot", "inner"):
-            na, nb = rng.randint(1, 3), rng.randint(1, 3)
-            k = rng.randint(1, 5)
-            sa = [rng.randint(1, 4) for _ in range(na - 1)] + [k]
-            sb = [rng.randint(1, 4) for _ in range(nb)]
-            sb[-1 if (nb == 1 or kind == "inner") else -2] = k
-            d.update(_ops(rng, [sa, sb]))
+            d.update(_gen_dot(rng, kind))
+        elif kind == "vdot":
+            d.update(_gen_vdot(rng))
         elif kind == "matmul":
-            na, nb = rng.randint(1, 4), rng.randint(1, 4)
-            k = rng.randint(1, 5)
-            batch = [rng.randint(1, 3) for _ in range(2)]
-            sa = ([rng.choice((b, 1)) for b in batch][-(na - 2):] if na > 2 else []) + ([rng.randint(1, 4)] if na > 1 else []) + [k]
-            sb = ([rng.choice((b, 1)) for b in batch][-(nb - 2):] if nb > 2 else []) + [k] + ([rng.randint(1, 4)] if nb > 1 else [])
-            d.update(_ops(rng, [sa, sb]))
-            d["form"] = rng.choice(("op", "op", "func", "np_left", "np_right"))
+            d.update(_gen_matmul(rng))
         elif kind == "outer":
-            sa = [rng.randint(1, 5) for _ in range(rng.choice((1, 1, 1, 2)))]
-            sb = [rng.randint(1, 5) for _ in range(rng.choice((1, 1, 1, 2)))]
+            sa = [rng.choice((0, 1, 2, 3, 4, 5, 5)) for _ in range(rng.choice((0, 1, 1, 1, 2, 3)))]
+            sb = [rng.choice((0, 1, 2, 3, 4, 5, 5)) for _ in range(rng.choice((0, 1, 1, 1, 2, 3)))]
             d.update(_ops(rng, [sa, sb]))
+            d["form"] = rng.choice(("func", "func", "func", "np_func", "np_left", "np_right"))
         elif kind == "einsum":
             d.update(_gen_einsum(rng))
+        elif kind == "svdc":
+            d.update(_gen_svdc(rng))
+        elif kind == "norm":
+            d.update(_gen_norm(rng))
+        elif kind == "cholesky":
+            nb = rng.choice((1, 1, 1, 1, 2, 3))
+            c = rng.randint(1, 6 if nb == 1 else 2)
+            d.update({"n": nb * c, "c": [c] * nb, "dtype": rng.choice(("float64", "float64", "float32", "complex128")),
+                      "lower": rng.random() < 0.5})
+        elif kind == "scipy":
+            d.update({"fn": rng.choice(SCIPY_FNS), "lower": rng.random() < 0.5, "bnd": rng.choice((1, 2))})
         yield d
 
 
-def _ops(rng, shapes):
-    dts = [rng.choice(TD) for _ in shapes]
+def _many_blocks(rng, n):
+    """a chunking of a long axis into pieces of 1-3 elements (>= 5 blocks for n >= 13, usually for n >= 8)"""
+    out, rest = [], n
+    while rest > 0:
+        p = min(rest, rng.choice((1, 1, 2, 2, 3)))
+        out.append(p)
+        rest -= p
+    return tuple(out)
+
+
+def _ops(rng, shapes, long_axes=(), pool=TD):
+    """long_axes: (operand, axis) pairs whose chunking is forced to many small blocks"""
+    dts = [rng.choice(pool) for _ in shapes]
     if rng.random() < 0.5:
         dts = [dts[0]] * len(shapes)
-    return {"s": [list(s) for s in shapes], "c": [_jl(A.rand_chunks(rng, s)) for s in shapes], "d": dts}
+    cs = [list(A.rand_chunks(rng, s)) for s in shapes]
+    for (o, ax) in long_axes:
+        if rng.random() < 0.8:
+            cs[o][ax] = _many_blocks(rng, shapes[o][ax])
+    return {"s": [list(s) for s in shapes], "c": [_jl(c) for c in cs], "d": dts}
 
 
 def _gen_tensordot(rng):
-    na, nb = rng.randint(1, 4), rng.randint(1, 3)
-    k = rng.randint(0, min(na, nb, 2))
+    na, nb = rng.randint(1, 4), rng.randint(1, 4 if rng.random() < 0.3 else 3)
+    k = rng.randint(0, min(na, nb, 3))
     sa = [rng.randint(1, 5) for _ in range(na)]
     sb = [rng.randint(1, 5) for _ in range(nb)]
-    form = rng.choice(("int", "lists", "lists", "lists-neg", "lists-neg", "ints"))
-    if form == "int" or k == 0:
-        for j in range(k):
-            sb[j] = sa[na - k + j]
-        axes = k
+    form = rng.choice(("int", "default", "lists", "lists", "lists-neg", "lists-neg", "ints", "ints-neg"))
+    if form == "default":
+        if min(na, nb) >= 2:
+            k = 2
+        else:
+            form = "int"
+    if form in ("int", "default") or k == 0:
+        la, lb = list(range(na - k, na)), list(range(k))
     else:
         la = rng.sample(range(na), k)
         lb = rng.sample(range(nb), k)
-        for x, y in zip(la, lb):
-            sb[y] = sa[x]
-        if form == "lists-neg":
+    for x, y in zip(la, lb):
+        sb[y] = sa[x]
+    u = rng.random()
+    long_axes = []
+    if u < 0.15 and k >= 1:
+        j = rng.randrange(k)
+        sa[la[j]] = sb[lb[j]] = rng.randint(6, 12)
+        long_axes = [(0, la[j]), (1, lb[j])]
+    elif u < 0.22:
+        if rng.random() < 0.5 and k >= 1:
+            j = rng.randrange(k)
+            sa[la[j]] = sb[lb[j]] = 0
+        else:
+            free_a = [x for x in range(na) if x not in la]
+            free_b = [y for y in range(nb) if y not in lb]
+            if free_a and (not free_b or rng.random() < 0.5):
+                sa[rng.choice(free_a)] = 0
+            elif free_b:
+                sb[rng.choice(free_b)] = 0
+    if form == "default":
+        axes = None
+    elif form == "int" or k == 0:
+        axes = k
+    else:
+        if form in ("lists-neg", "ints-neg"):
             la = [x - na if rng.random() < 0.6 else x for x in la]
             lb = [y - nb if rng.random() < 0.6 else y for y in lb]
-        if form == "ints" and k == 1:
+        if form in ("ints", "ints-neg") and k == 1:
             axes = [la[0], lb[0]]
         else:
             axes = [la, lb]
-    d = _ops(rng, [sa, sb])
+    d = _ops(rng, [sa, sb], long_axes)
     d["axes"] = axes
+    d["cont"] = rng.choice(("tuple", "tuple", "list", "mixed"))
+    d["form"] = rng.choice(("func",) * 7 + ("np_func", "np_left", "np_right"))
+    return d
+
+
+def _gen_dot(rng, kind):
+    na = rng.choice((0, 1, 1, 2, 2, 2, 3, 3)) if kind == "dot" else rng.randint(1, 3)
+    nb = rng.choice((0, 1, 1, 2, 2, 2, 3, 3)) if kind == "dot" else rng.randint(1, 3)
+    k = rng.randint(1, 5)
+    u = rng.random()
+    if u < 0.15:
+        k = rng.randint(6, 12)
+    elif u < 0.2:
+        k = 0
+    sa = ([rng.randint(1, 4) for _ in range(na - 1)] + [k]) if na else []
+    sb = [rng.randint(1, 4) for _ in range(nb)]
+    pb = None
+    if nb:
+        pb = nb - 1 if (nb == 1 or kind == "inner") else nb - 2
+        sb[pb] = k
+    long_axes = [(0, na - 1), (1, pb)] if (k >= 6 and na and nb) else []
+    d = _ops(rng, [sa, sb], long_axes)
+    d["form"] = rng.choice(("func", "func", "func", "method", "method", "np_func", "np_left", "np_right"))
+    return d
+
+
+def _factor(rng, n):
+    """a random shape with n elements"""
+    if n == 0:
+        return rng.choice(([0], [0, 2], [3, 0]))
+    shp, rest = [], n
+    for _ in range(rng.choice((0, 0, 1, 1, 2))):
+        divs = [q for q in range(1, rest + 1) if rest % q == 0]
+        q = rng.choice(divs)
+        shp.append(q)
+        rest //= q
+    shp.append(rest)
+    rng.shuffle(shp)
+    return shp
+
+
+def _gen_vdot(rng):
+    n = rng.choice((0, 1, 2, 3, 4, 5, 6, 6, 8, 8, 9, 10, 12, 12, 16, 18, 24))
+    sa, sb = _factor(rng, n), _factor(rng, n)
+    long_axes = [(o, ax) for o, s in enumerate((sa, sb)) for ax, q in enumerate(s) if q >= 6]
+    d = _ops(rng, [sa, sb], long_axes, pool=VD)
+    d["form"] = rng.choice(("func", "func", "func", "np_func", "np_left", "np_right"))
+    return d
+
+
+def _gen_matmul(rng):
+    na, nb = rng.randint(1, 4), rng.randint(1, 4)
+    k = rng.randint(1, 5)
+    u = rng.random()
+    if u < 0.15:
+        k = rng.randint(6, 12)
+    elif u < 0.19:
+        k = 0
+    batch = [rng.randint(1, 3) for _ in range(2)]
+    sa = ([rng.choice((b, 1)) for b in batch][-(na - 2):] if na > 2 else []) + ([rng.randint(1, 4)] if na > 1 else []) + [k]
+    sb = ([rng.choice((b, 1)) for b in batch][-(nb - 2):] if nb > 2 else []) + [k] + ([rng.randint(1, 4)] if nb > 1 else [])
+    if 0.19 <= u < 0.22 and na > 1:
+        sa[-2] = 0
+    long_axes = [(0, na - 1), (1, 0 if nb == 1 else nb - 2)] if k >= 6 else []
+    d = _ops(rng, [sa, sb], long_axes)
+    d["form"] = rng.choice(("op", "op", "func", "np_func", "np_left", "np_right"))
     return d
 
 
 def _gen_einsum(rng):
     letters = "ijkl"
     size = {ch: rng.randint(1, 4) for ch in letters}
-    nops = rng.choice((1, 2, 2, 2, 3))
+    longl = None
+    if rng.random() < 0.15:
+        longl = rng.choice(letters[:3])
+        size[longl] = rng.randint(6, 10)
+        for ch in letters:
+            if ch != longl:
+                size[ch] = rng.randint(1, 3)
+    nops = rng.choice((1, 2, 2, 2, 2, 3, 3, 4))
     use_ell = rng.random() < 0.3
     ell_shape = [rng.randint(1, 3) for _ in range(rng.randint(1, 2))] if use_ell else []
-    subs, shapes = [], []
-    for _ in range(nops):
+    bcast = rng.random() < 0.06            # a named index of length 1 in one operand against length n elsewhere
+    subs, shapes, long_axes = [], [], []
+    for o in range(nops):
         nidx = rng.choice((0, 1, 1, 2, 2, 2, 3))
         idx = [rng.choice(letters[:3] if rng.random() < 0.8 else letters) for _ in range(nidx)]
         sub = "".join(idx)
         shp = [size[c] for c in idx]
+        if bcast and idx and o > 0 and rng.random() < 0.6:
+            shp[rng.randrange(len(idx))] = 1
+        pos = 0
+        es = []
         if use_ell and rng.random() < 0.7:
             ne = rng.randint(0, len(ell_shape))
             es = [e if rng.random() < 0.75 else 1 for e in ell_shape[len(ell_shape) - ne:]]
             pos = rng.choice((0, 0, len(idx), rng.randint(0, len(idx))))
             sub = sub[:pos] + "..." + sub[pos:]
             shp = shp[:pos] + es + shp[pos:]
+        for j, c in enumerate(idx):
+            if c == longl:
+                long_axes.append((o, j if j < pos or not es else j + len(es)))
         subs.append(sub)
         shapes.append(shp)
     spec = ",".join(subs)
@@ -227,15 +391,35 @@ def _gen_einsum(rng):
             pos = rng.choice((0, 0, len(out)))
             out = out[:pos] + "..." + out[pos:]
         spec += "->" + out
-    d = _ops(rng, shapes)
+    fmt = rng.choice(("str",) * 6 + ("spaces", "list", "list"))
+    if fmt != "list" and rng.random() < 0.12:      # upper-case letters sort before lower-case ones in an implicit output
+        up = {c: c.upper() for c in letters if rng.random() < 0.5}
+        spec = "".join(up.get(c, c) for c in spec)
+    long_axes = [(o, ax) for (o, ax) in long_axes if ax < len(shapes[o]) and shapes[o][ax] >= 6]
+    d = _ops(rng, shapes, long_axes)
     d["spec"] = spec
-    d["optimize"] = rng.choice((False, False, True, "greedy", "optimal"))
-    d["split_every"] = rng.choice((None, None, 2))
+    d["fmt"] = fmt
+    d["optimize"] = rng.choice((False, False, False, True, "greedy", "optimal", "path"))
+    d["split_every"] = rng.choice((None, None, None, 2, 2, 3, "dict"))
+    d["dtype_kw"] = rng.random() < 0.22            # resolved against the operand dtypes in run_case
+    d["dtype_pick"] = rng.randrange(8)
+    d["np_operand"] = rng.randrange(nops) if rng.random() < 0.1 else None
     return d
 
 
-def _gen_matrix(rng):
-    flavour = rng.choice(("tall", "tall", "tall", "tall-many", "tall-many", "fat", "fat", "single", "tall-wide", "grid"))
+def _zeros_into(rng, blocks, p, first_ok=True):
+    """insert one or two blocks of length 0 at random positions with probability p"""
+    blocks = list(blocks)
+    if rng.random() < p:
+        for _ in range(rng.choice((1, 1, 2))):
+            blocks.insert(rng.randint(0 if first_ok else 1, len(blocks)), 0)
+        return blocks, True
+    return blocks, False
+
+
+def _gen_matrix(rng, kind):
+    flavour = rng.choice(("tall",) * 4 + ("tall-many",) * 3 + ("tall-deep", "fat", "fat", "fat-tall", "single", "tall-wide",
+                                                               "square", "square", "grid"))
     if flavour == "tall":
         n = rng.randint(1, 6)
         rows = [rng.randint(1, 7) for _ in range(rng.randint(2, 5))]
@@ -244,6 +428,11 @@ def _gen_matrix(rng):
         n = rng.randint(1, 3)
         big = rng.randint(2 * n, 2 * n + 4)
         rows = [rng.choice((big, big, rng.randint(1, big))) for _ in range(rng.randint(3, 8))]
+        c = [rows, [n]]
+    elif flavour == "tall-deep":          # enough blocks for two or more levels of recursion
+        n = rng.randint(1, 2)
+        big = rng.randint(2 * n, 2 * n + 2)
+        rows = [rng.choice((big, big, big, rng.randint(1, big))) for _ in range(rng.randint(9, 20))]
         c = [rows, [n]]
     elif flavour == "tall-wide":          # one column block, several row blocks, but fewer rows than columns overall
         rows = [rng.randint(1, 3) for _ in range(rng.randint(2, 3))]
@@ -255,12 +444,99 @@ def _gen_matrix(rng):
         if rng.random() < 0.7:
             cols[0] = max(cols[0], m)     # sfqr precondition: first column block at least as wide as the matrix is tall
         c = [[m], cols]
+    elif flavour == "fat-tall":           # one row block, several column blocks, but more rows than columns overall
+        cols = [rng.randint(1, 3) for _ in range(rng.randint(2, 3))]
+        m = sum(cols) + rng.randint(1, 4)
+        c = [[m], cols]
+    elif flavour == "square":
+        q = rng.randint(2, 8)
+        parts = list(A.rand_comp(rng, q, flavour=rng.choice(("two", "irregular", "regular", "ones"))))
+        c = [parts, [q]] if rng.random() < 0.6 else [[q], parts]
     elif flavour == "single":
         c = [[rng.randint(1, 8)], [rng.randint(1, 8)]]
     else:
         c = [[rng.randint(1, 4) for _ in range(2)], [rng.randint(1, 4) for _ in range(2)]]
+    zero = False
+    if flavour in ("tall", "tall-many", "tall-deep", "tall-wide") or (flavour == "square" and len(c[1]) == 1):
+        c[0], zero = _zeros_into(rng, c[0], 0.2)
+    elif flavour in ("fat", "fat-tall") or flavour == "square":
+        c[1], zero = _zeros_into(rng, c[1], 0.15, first_ok=rng.random() < 0.3)
     m, n = sum(c[0]), sum(c[1])
-    return {"m": m, "n": n, "c": c, "mk": rng.choice(MKINDS), "dtype": rng.choice(MD), "flavour": flavour}
+    mk = rng.choice(MKINDS)
+    dtype = rng.choice(MD)
+    u = rng.random()
+    if u < 0.1:
+        dtype = "complex128"
+    elif u < 0.15:
+        mk, dtype = "intvalued", "int64"
+    d = {"m": m, "n": n, "c": c, "mk": mk, "dtype": dtype, "flavour": flavour}
+    one_col, one_row = len(c[1]) == 1, len(c[0]) == 1
+    # rows (columns for the transposed svd path) of unknown height: only where the shape does not contradict the chunking
+    if rng.random() < 0.18:
+        if one_col and len(c[0]) > 1 and m >= n:
+            d["unknown"] = "rows"
+        elif kind == "svd" and one_row and len(c[1]) > 1 and n >= m:
+            d["unknown"] = "cols"
+    u = rng.random()
+    if kind == "qr":
+        if u < 0.14 and one_col and "unknown" not in d:
+            d["entry"] = "tsqr"
+        elif u < 0.22 and one_row:
+            d["entry"] = "sfqr"
+        elif u < 0.32:
+            d["entry"] = "np"
+    else:
+        d["coerce_signs"] = rng.random() < 0.7
+        if u < 0.1 and one_col and m >= n and "unknown" not in d:
+            d["entry"] = "tsqr_svd"
+        elif u < 0.2:
+            d["entry"] = "np"
+            d["coerce_signs"] = True              # np.linalg.svd has no such keyword
+        elif u < 0.215:
+            d["full_matrices"] = True
+    return d
+
+
+def _gen_svdc(rng):
+    m, n = rng.randint(1, 12), rng.randint(1, 12)
+    return {"m": m, "n": n, "c": _jl(A.rand_chunks(rng, (m, n))),
+            "mk": rng.choice(("normal", "normal", "normal", "rankdef", "zero", "scaled", "intvalued")), "dtype": rng.choice(MD),
+            "k": rng.randint(1, min(m, n)), "iterator": rng.choice(("power", "power", "QR")), "p": rng.choice((0, 0, 1, 2)),
+            "n_oversamples": rng.choice((10, 10, 0, 3, 12)), "seed_form": rng.choice(("int", "int", "RandomState")),
+            "rs": rng.randrange(1000), "compute": rng.random() < 0.15, "coerce_signs": rng.random() < 0.7}
+
+
+VEC_ORDS = [None, None, "inf", "-inf", 0, 1, -1, 2, -2, 3, 0.5, -3]
+MAT_ORDS = [None, "fro", "fro", "nuc", "inf", "-inf", 1, -1, 2, -2]
+
+
+def _gen_norm(rng):
+    nd = rng.choice((1, 1, 2, 2, 2, 2, 3, 3, 4))
+    shape = [rng.randint(1, 5) for _ in range(nd)]
+    long_axes = []
+    if rng.random() < 0.15:
+        ax = rng.randrange(nd)
+        shape[ax] = rng.randint(6, 12)
+        long_axes = [(0, ax)]
+    t = rng.choice(("none", "int", "int", "pair", "pair"))
+    if nd == 1 and t == "pair":
+        t = "int"
+    if t == "none":
+        axis = None
+        ordv = rng.choice(VEC_ORDS if nd == 1 else MAT_ORDS) if nd <= 2 else None
+    elif t == "int":
+        axis = rng.randrange(-nd, nd)
+        ordv = rng.choice(VEC_ORDS)
+    else:
+        a0, a1 = rng.sample(range(nd), 2)
+        axis = [a0 - nd if rng.random() < 0.4 else a0, a1 - nd if rng.random() < 0.4 else a1]
+        ordv = rng.choice(MAT_ORDS if nd == 2 else [o for o in MAT_ORDS if o not in ("nuc", 2, -2)] + ["nuc"])
+    d = _ops(rng, [shape], long_axes, pool=ND)
+    if nd == 2 and ordv in ("nuc", 2, -2) and rng.random() < 0.8:      # the svd behind these needs a one-dimensional grid
+        ax = rng.randrange(2)
+        d["c"][0][ax] = [shape[ax]]
+    d.update({"ord": ordv, "axis": axis, "keepdims": rng.random() < 0.4, "form": rng.choice(("func", "func", "func", "np_func"))})
+    return d
 
 
 # ---------------------------------------------------------------------------------------------
@@ -269,7 +545,11 @@ def _gen_matrix(rng):
 def _tensor(seed, shape, dtype):
     r = np.random.default_rng(seed)
     dt = np.dtype(dtype)
-    if dt.kind in "iu":
+    if dt.kind == "b":
+        return r.integers(0, 2, size=shape).astype(bool)
+    if dt.kind == "u":
+        return r.integers(0, 4, size=shape).astype(dt)
+    if dt.kind == "i":
         return r.integers(-4, 5, size=shape).astype(dt)
     if dt.kind == "c":
         return (r.standard_normal(shape) + 1j * r.standard_normal(shape)).astype(dt)
@@ -292,6 +572,8 @@ def _matrix(seed, m, n, mk, dtype):
         a = r.integers(-3, 4, size=(m, n)).astype("float64")
     else:
         a = r.standard_normal((m, n))
+    if np.dtype(dtype).kind == "c" and mk != "zero":
+        a = a + 1j * np.random.default_rng(seed + 1).standard_normal((m, n)) * (np.abs(a).max() if a.size else 1.0)
     return a.astype(dtype)
 
 
@@ -301,8 +583,17 @@ def run_case(case, ctx):
     with warnings.catch_warnings():
         warnings.simplefilter("ignore")
         with np.errstate(all="ignore"):
-            if case["kind"] in ("qr", "svd"):
+            kind = case["kind"]
+            if kind in ("qr", "svd"):
                 _run_decomp(case, ctx)
+            elif kind == "svdc":
+                _run_svdc(case, ctx)
+            elif kind == "norm":
+                _run_norm(case, ctx)
+            elif kind == "cholesky":
+                _run_cholesky(case, ctx)
+            elif kind == "scipy":
+                _run_scipy(case, ctx)
             else:
                 _run_tensor(case, ctx)
 
@@ -311,10 +602,77 @@ def _sched(case):
     return "threads" if case.get("threads") else "sync"
 
 
+def _max_blocks(cs, pairs):
+    """largest number of blocks along any of the given (operand, axis) pairs"""
+    out = 0
+    for o, ax in pairs:
+        if o < len(cs) and -len(cs[o]) <= ax < len(cs[o]):
+            out = max(out, len(cs[o][ax]))
+    return out
+
+
+EINSUM_DTYPES = {"float64": [("float32", "same_kind"), ("complex128", None), ("float32", "unsafe")],
+                 "float32": [("float64", None), ("complex64", None), ("complex128", "safe")],
+                 "int64": [("float64", None), ("int32", "same_kind"), ("int64", None)],
+                 "int32": [("int64", None), ("float64", None), ("int32", None)],
+                 "uint8": [("int64", None), ("float32", None)],
+                 "complex128": [("complex64", "same_kind"), ("complex128", None)],
+                 "complex64": [("complex128", None)],
+                 "bool": [("int64", None), ("float64", None)]}
+
+
+def _einsum_terms(spec, xs):
+    """number of summed terms per output element (product of the lengths of the contracted labels)"""
+    ins, arrow, out = spec.replace(" ", "").partition("->")
+    size, ell = {}, []
+    for t, x in zip(ins.split(","), xs):
+        if "..." in t:
+            head, tail = t.split("...")
+            ne = max(x.ndim - len(head) - len(tail), 0)
+            labels = list(head) + [None] * ne + list(tail)
+            es = list(x.shape[len(head):len(head) + ne])
+            ell = [max(p, q) for p, q in zip([1] * (len(es) - len(ell)) + ell, es)] if len(es) >= len(ell) else ell
+        else:
+            labels = list(t)
+        for lab, q in zip(labels, x.shape):
+            if lab is not None:
+                size[lab] = max(size.get(lab, 1), q)
+    if arrow:
+        outl = set(out.replace("...", ""))
+    else:
+        flat = ins.replace(",", "").replace("...", "")
+        outl = {c for c in flat if flat.count(c) == 1}
+    n = 1
+    for lab, q in size.items():
+        if lab not in outl:
+            n *= max(q, 1)
+    if arrow and "..." not in out:
+        n *= int(np.prod(ell)) if ell else 1
+    return max(n, 1)
+
+
+def _einsum_sublists(spec):
+    """('ij...,jk->...k') -> ([[8, 9, Ellipsis], [9, 10]], [Ellipsis, 10] | None)   (integers 0-25: lower-case letters)"""
+    ins, arrow, out = spec.partition("->")
+
+    def conv(t):
+        res, i = [], 0
+        while i < len(t):
+            if t.startswith("...", i):
+                res.append(Ellipsis)
+                i += 3
+            else:
+                res.append(ord(t[i]) - ord("a"))
+                i += 1
+        return res
+    return [conv(t) for t in ins.split(",")], (conv(out) if arrow else None)
+
+
 def _run_tensor(case, ctx):
     import dask.array as da
 
     kind = case["kind"]
+    form = case.get("form", "func")
     xs = [_tensor(case["seed"] + i, tuple(s), d) for i, (s, d) in enumerate(zip(case["s"], case["d"]))]
     cs = [A.chunks_of_desc(c) for c in case["c"]]
     dxs = [da.from_array(x, chunks=c) for x, c in zip(xs, cs)]
@@ -323,28 +681,75 @@ def _run_tensor(case, ctx):
     ctx.op(kind)
     flags = []
     n_contract = 1
+    contracted = []                     # (operand, axis) pairs that are summed over
+    ops = list(dxs)                     # what the dask call receives
+    if form == "np_left":
+        ops[0] = xs[0]
+    elif form == "np_right":
+        ops[-1] = xs[-1]
+    if form in ("np_left", "np_right", "np_func"):
+        ctx.count("form_" + form)
+    opt = kw = None
     if kind == "tensordot":
         axes = case["axes"]
-        ax = axes if isinstance(axes, int) else (tuple(axes[0]) if isinstance(axes[0], list) else axes[0],
-                                                  tuple(axes[1]) if isinstance(axes[1], list) else axes[1])
-        if isinstance(axes, int):
-            n_contract = int(np.prod(xs[0].shape[xs[0].ndim - axes:])) if axes else 1
+        cont = case.get("cont", "tuple")
+
+        def conv(v, which):
+            if not isinstance(v, list):
+                return v
+            as_list = cont == "list" or (cont == "mixed" and which == 0)
+            return list(v) if as_list else tuple(v)
+        if axes is None:
+            akw = {}
+            ctx.count("tensordot_axes_default")
+            la, lb = [xs[0].ndim - 2, xs[0].ndim - 1], [0, 1]
+        elif isinstance(axes, int):
+            akw = {"axes": axes}
+            la, lb = list(range(xs[0].ndim - axes, xs[0].ndim)), list(range(axes))
         else:
+            akw = {"axes": (conv(axes[0], 0), conv(axes[1], 1))}
             la = axes[0] if isinstance(axes[0], list) else [axes[0]]
             lb = axes[1] if isinstance(axes[1], list) else [axes[1]]
+            if isinstance(axes[0], list) and cont in ("list", "mixed"):
+                ctx.count("tensordot_axes_as_list")
+            if not isinstance(axes[0], list) and (axes[0] < 0 or axes[1] < 0):
+                ctx.count("tensordot_negative_int_pair")
             if any(v < 0 for v in la):
                 flags.append("negative-left-axis")
                 ctx.count("tensordot_negative_left_axis")
             elif any(v < 0 for v in lb):
                 flags.append("negative-right-axis")
-            n_contract = int(np.prod([xs[0].shape[v] for v in la])) if la else 1
-        f_np = lambda a, b: np.tensordot(a, b, axes=ax)      # noqa: E731
-        f_da = lambda a, b: da.tensordot(a, b, axes=ax)      # noqa: E731
+        if len(la) >= 3:
+            ctx.count("tensordot_three_axes")
+        n_contract = int(np.prod([xs[0].shape[v] for v in la])) if la else 1
+        contracted = [(0, v) for v in la] + [(1, v) for v in lb]
+        f_np = lambda a, b: np.tensordot(a, b, **akw)       # noqa: E731
+        f_da = (lambda a, b: np.tensordot(a, b, **akw)) if form == "np_func" else (lambda a, b: da.tensordot(a, b, **akw))
     elif kind == "dot":
-        n_contract = xs[0].shape[-1]
-        if xs[1].ndim == 1:
-            flags.append("1-d-right")
-        f_np, f_da = np.dot, da.dot
+        if xs[0].ndim == 0 or xs[1].ndim == 0:
+            flags.append("0-d-operand")
+            ctx.count("dot_0d_operand")
+        else:
+            n_contract = xs[0].shape[-1]
+            contracted = [(0, xs[0].ndim - 1), (1, 0 if xs[1].ndim == 1 else xs[1].ndim - 2)]
+            if xs[1].ndim == 1:
+                flags.append("1-d-right")
+        f_np = np.dot
+        if form == "method":
+            ctx.count("dot_method")
+            f_da = lambda a, b: a.dot(b)                     # noqa: E731
+        else:
+            f_da = np.dot if form == "np_func" else da.dot
+    elif kind == "vdot":
+        n_contract = xs[0].size
+        if xs[0].dtype.kind == "c":
+            flags.append("complex-left")
+            ctx.count("vdot_complex_left")
+        if xs[0].shape != xs[1].shape:
+            ctx.count("vdot_shapes_differ")
+        contracted = [(o, ax) for o in (0, 1) for ax in range(xs[o].ndim)]
+        f_np = np.vdot
+        f_da = np.vdot if form == "np_func" else da.vdot
     elif kind == "inner":
         n_contract = xs[0].shape[-1]
         f_np = np.inner
@@ -354,7 +759,7 @@ def _run_tensor(case, ctx):
             return
     elif kind == "matmul":
         n_contract = xs[0].shape[-1]
-        form = case["form"]
+        contracted = [(0, xs[0].ndim - 1), (1, 0 if xs[1].ndim == 1 else xs[1].ndim - 2)]
         if xs[0].ndim == 1:
             flags.append("1-d-left")
         if xs[1].ndim == 1:
@@ -362,20 +767,22 @@ def _run_tensor(case, ctx):
         if (xs[0].ndim > 2 or xs[1].ndim > 2) and xs[0].shape[:-2] != xs[1].shape[:-2]:
             flags.append("batch-broadcast")
         f_np = np.matmul
-        if form == "op":
-            f_da = lambda a, b: a @ b                       # noqa: E731
-        elif form == "func":
+        if form == "func":
             f_da = da.matmul
-        elif form == "np_left":
-            f_da = lambda a, b: xs[0] @ b                   # noqa: E731
-        else:
-            f_da = lambda a, b: a @ xs[1]                   # noqa: E731
+        elif form == "np_func":
+            f_da = np.matmul
+        else:                                                # "op", "np_left" (ndarray @ dask), "np_right"
+            f_da = lambda a, b: a @ b                       # noqa: E731
     elif kind == "outer":
         if xs[0].ndim > 1 or xs[1].ndim > 1:
             flags.append("n-d-operand")
-        f_np, f_da = np.outer, da.outer
+        if xs[0].ndim == 0 or xs[1].ndim == 0:
+            ctx.count("outer_0d_operand")
+        f_np = np.outer
+        f_da = np.outer if form == "np_func" else da.outer
     elif kind == "einsum":
         spec, opt = case["spec"], case["optimize"]
+        fmt = case.get("fmt", "str")
         ins = spec.split("->")[0].split(",")
         rep = _repeated(ins, xs, cs)
         if rep:
@@ -387,21 +794,101 @@ def _run_tensor(case, ctx):
             ctx.count("einsum_ellipsis")
         if opt is not False:
             ctx.count("einsum_optimize")
-        n_contract = int(np.prod([max(x.size, 1) for x in xs]))   # crude upper bound of terms per output element
-        kw = {} if case.get("split_every") is None else {"split_every": case["split_every"]}
-        f_np = lambda *a: np.einsum(spec, *a, optimize=opt)         # noqa: E731
-        f_da = lambda *a: da.einsum(spec, *a, optimize=opt, **kw)   # noqa: E731
+        n_contract = _einsum_terms(spec, xs) + len(xs)
+        kw, kwnp = {}, {}
+        se = case.get("split_every")
+        if se == "dict":
+            kw["split_every"] = {i: 2 + i % 2 for i in range(8)}
+            ctx.count("einsum_split_every_dict")
+        elif se is not None:
+            kw["split_every"] = se
+        if case.get("dtype_kw"):
+            try:
+                rt = str(np.result_type(*[x.dtype for x in xs]))
+            except Exception:  # noqa: BLE001
+                rt = None
+            cands = EINSUM_DTYPES.get(rt)
+            if cands:
+                dtn, casting = cands[case.get("dtype_pick", 0) % len(cands)]
+                kwnp["dtype"] = dtn
+                if casting:
+                    kwnp["casting"] = casting
+                flags.append("dtype-keyword")
+                ctx.count("einsum_dtype_keyword")
+                if np.dtype(dtn) != np.dtype(rt):
+                    ctx.count("einsum_dtype_keyword_changes_dtype")
+        if opt == "path":
+            try:
+                opt = np.einsum_path(spec, *xs, optimize="greedy")[0]
+            except Exception as ex:  # noqa: BLE001
+                ctx.reject("numpy einsum_path: %s: %s" % (type(ex).__name__, ex))
+                return
+            ctx.count("einsum_explicit_path")
+        if any(c.isupper() for c in spec):
+            ctx.count("einsum_uppercase")
+        if _named_broadcast(ins, xs):
+            ctx.count("einsum_named_broadcast")
+        if len(xs) >= 4:
+            ctx.count("einsum_four_operands")
+        npo = case.get("np_operand")
+        if npo is not None:
+            ops[npo] = xs[npo]
+            ctx.count("einsum_numpy_operand")
+        if fmt == "list":
+            subl, outl = _einsum_sublists(spec)
+            ctx.count("einsum_sublist_format")
+
+            def inter(arrs):
+                a = [q for pair in zip(arrs, subl) for q in pair]
+                return a + ([outl] if outl is not None else [])
+            f_np = lambda *a: np.einsum(*inter(a), optimize=opt, **kwnp)            # noqa: E731
+            f_np_plain = lambda *a: np.einsum(*inter(a), optimize=False, **kwnp)     # noqa: E731
+            f_da = lambda *a: da.einsum(*inter(a), optimize=opt, **kwnp, **kw)      # noqa: E731
+        else:
+            sp = spec.replace(",", " , ").replace("->", " -> ") if fmt == "spaces" else spec
+            if fmt == "spaces":
+                ctx.count("einsum_spaces")
+            f_np = lambda *a: np.einsum(sp, *a, optimize=opt, **kwnp)               # noqa: E731
+            f_np_plain = lambda *a: np.einsum(sp, *a, optimize=False, **kwnp)        # noqa: E731
+            f_da = lambda *a: da.einsum(sp, *a, optimize=opt, **kwnp, **kw)         # noqa: E731
         ctx.distinct("einsum_specs", spec)
+        # contracted axes: every axis whose label is summed away
+        _, arrow, outs = spec.partition("->")
+        flat = "".join(ins).replace("...", "")
+        keep = set(outs.replace("...", "")) if arrow else {c for c in flat if flat.count(c) == 1}
+        for o, (t, x) in enumerate(zip(ins, xs)):
+            if "..." in t:
+                head, tail = t.split("...")
+                pos = list(range(len(head))) + list(range(x.ndim - len(tail), x.ndim))
+                t = head + tail
+            else:
+                pos = list(range(len(t)))
+            contracted += [(o, p) for p, ch in zip(pos, t) if ch not in keep]
     else:
         raise AssertionError(kind)
+    if any(0 in x.shape for x in xs):
+        ctx.count("zero_length_axis")
+    nblk = _max_blocks(cs, contracted)
+    if nblk >= 3:
+        ctx.count("contracted_axis_3_blocks")
+    if nblk >= 5:
+        ctx.count("contracted_axis_5_blocks")
     label = "%s:%s" % (kind, "&".join(flags) or "-")
     try:
         e = f_np(*xs)
+        if kind == "einsum" and opt is not False and any(x.dtype.kind == "b" for x in xs):
+            # Calibration: with a bool operand NumPy's optimized einsum reduces that operand alone in bool first
+            # (logical any) - its result differs from its own optimize=False result: no reference
+            e0 = f_np_plain(*xs)
+            if np.shape(e0) != np.shape(e) or not np.array_equal(np.asarray(e0), np.asarray(e)):
+                ctx.count("einsum_numpy_inconsistent_with_itself")
+                ctx.reject("numpy: einsum with a bool operand gives different results with and without optimize")
+                return
     except Exception as ex:  # noqa: BLE001
         ctx.reject("numpy: %s: %s" % (type(ex).__name__, ex))
         return
     try:
-        r = f_da(*dxs)
+        r = f_da(*ops)
         if not isinstance(r, da.Array):
             ctx.violation(label + ":result-not-a-dask-array", "got %r" % (type(r),))
             return
@@ -413,51 +900,77 @@ def _run_tensor(case, ctx):
         if "repeated-index&axes-chunked-differently" in flags and isinstance(ex, ValueError):
             # one mechanism (blockwise never aligns two axes of ONE operand), several raise sites
             import traceback
-            ctx.violation(label + ":ValueError", "%s: %s" % (type(ex).__name__, ex), traceback=traceback.format_exc()[-2000:])
+            ctx.violation("einsum:repeated-index&axes-chunked-differently:ValueError", "%s: %s" % (type(ex).__name__, ex),
+                          traceback=traceback.format_exc()[-2000:])
+            return
+        if "0-d-operand" in flags:
+            ctx.exception(ex, prefix="dot:0-d-operand")
             return
         ctx.exception(ex, prefix=label)
         return
     ctx.count("compared")
     ctx.count("compared_" + kind)
-    exact = np.asarray(e).dtype.kind in "iub"
+    ea = np.asarray(e)
+    exact = ea.dtype.kind in "iub"
     factor = 8.0
-    if kind == "einsum" and np.asarray(e).dtype.kind in "fc":
+    if kind == "einsum" and ea.dtype.kind in "fc":
         # Calibration: with mixed float32 / wider operands np.einsum itself contracts pairwise in the narrower dtype
         # depending on `optimize` (optimize=True and False differ by eps(float32)); the tolerance follows the
         # least precise floating operand.
-        eps_res = float(np.finfo(np.asarray(e).dtype).eps)
+        eps_res = float(np.finfo(ea.dtype).eps)
         eps_in = max([float(np.finfo(x.dtype).eps) for x in xs if x.dtype.kind in "fc"] + [eps_res])
         factor = 8.0 * eps_in / eps_res
     scale = float(np.prod([np.max(np.abs(x), initial=1.0) for x in xs])) * max(n_contract, 1)
     m = compare_arrays(rv, e, exact=exact, n=max(n_contract, 1), scale=scale, factor=factor)
-    if m and m[0] == "dtype" and np.asarray(e).dtype.kind in "iu" and np.asarray(e).dtype.itemsize < 8 \
-            and np.asarray(rv).dtype.kind in "iu":
-        # one mechanism per function (the blockwise product is summed with the platform integer), whatever the spec
-        ctx.violation("%s:int-narrower-than-64-bit:dtype" % kind, m[1])
-        m = compare_arrays(rv, e, exact=exact, n=max(n_contract, 1), scale=scale, check_dtype=False, factor=factor)
+    if m and m[0] == "dtype" and np.asarray(rv).dtype.kind in "iu" and (
+            (ea.dtype.kind in "iu" and ea.dtype.itemsize < 8) or ea.dtype.kind == "b"):
+        # one mechanism per function (the blockwise product is summed with the platform integer), whatever the spec.
+        # NumPy wraps around in the narrow dtype / takes the logical product of bools: compare modulo that.
+        if ea.dtype.kind == "b":
+            ctx.violation("%s:bool-operands:dtype" % kind, m[1])
+            rv_cmp = np.asarray(rv) != 0
+        else:
+            ctx.violation("%s:int-narrower-than-64-bit:dtype" % kind, m[1])
+            rv_cmp = np.asarray(rv).astype(ea.dtype)
+        m = compare_arrays(rv_cmp, e, exact=exact, n=max(n_contract, 1), scale=scale, factor=factor)
     if m:
         ctx.violation("%s:%s" % (label, m[0]), m[1], result=repr(rv)[:300], expected=repr(e)[:300])
     else:
         m = lazy_meta_mismatch(r, rv)
+        if m and m[0] == "lazy-dtype" and kind == "einsum" and "dtype-keyword" in flags and ea.dtype != np.dtype(kwnp["dtype"]):
+            # Calibration: np.einsum ignores dtype= when the result is a view of the operand ('j', 'ii->i', 'ij->ji');
+            # the computed blocks then have NumPy's dtype, the lazy dtype the requested one
+            ctx.count("einsum_numpy_ignores_dtype_keyword")
+            m = None
         if m:
             ctx.violation("%s:%s" % (label, m[0]), m[1])
     ctx.sample = {"kind": kind, "spec": case.get("spec", case.get("axes")), "shapes": case["s"], "chunks": case["c"],
                   "result_shape": list(np.shape(rv))}
     # ---- sibling facet: the same operands contracted over OTHER axes / another einsum output must not share keys ----
     if kind == "tensordot":
-        ax2 = _sibling_axes(case["axes"])
+        ax2 = _sibling_axes(case["axes"], xs[0].ndim)
         if ax2 is not None:
             S.check(ctx, "tensordot", "axes", r, (lambda: da.tensordot(dxs[0], dxs[1], axes=ax2)), va=rv,
                     describe={"axes": repr(ax2)})
-    elif kind == "einsum":
-        spec2 = _sibling_spec(case["spec"], S.rng_for(case))
-        if spec2 is not None:
-            S.check(ctx, "einsum", "subscripts", r, (lambda: da.einsum(spec2, *dxs, optimize=opt, **kw)), va=rv,
-                    describe={"spec": spec2})
+    elif kind == "einsum" and case.get("fmt", "str") != "list":
+        if "dtype-keyword" in flags and S.pick(case, 2, salt="einsum-sib") == 0:
+            other = "complex128" if ea.dtype != np.dtype("complex128") else "complex64"
+            kw2 = dict(kwnp, dtype=other, casting="unsafe")
+            S.check(ctx, "einsum", "dtype", r, (lambda: da.einsum(case["spec"], *dxs, optimize=opt, **kw2, **kw)), va=rv,
+                    describe={"dtype": other})
+        else:
+            spec2 = _sibling_spec(case["spec"], S.rng_for(case))
+            if spec2 is not None:
+                S.check(ctx, "einsum", "subscripts", r, (lambda: da.einsum(spec2, *dxs, optimize=case["optimize"] if
+                                                                           case["optimize"] != "path" else False,
+                                                                           **kwnp, **kw)), va=rv,
+                        describe={"spec": spec2})
 
 
-def _sibling_axes(axes):
+def _sibling_axes(axes, nda=2):
     """tensordot axes with one contracted pair dropped (always shape-compatible), or None"""
+    if axes is None:
+        return 1 if nda >= 1 else None
     if isinstance(axes, int):
         return 0 if axes == 1 else None
     la, lb = axes
@@ -511,19 +1024,58 @@ def _repeated(ins, xs, cs):
             axes = [pos[i] for i, q in enumerate(t) if q == ch]
             if len(axes) > 1:
                 out = out or "repeated-index"
-                if len({tuple(c[a]) for a in axes}) > 1:
+                if len({tuple(c[a]) for a in axes if a < len(c)}) > 1:
                     return "repeated-index&axes-chunked-differently"
     return out
+
+
+def _named_broadcast(ins, xs):
+    """True when a named index has length 1 in one place and a longer length in another"""
+    size = {}
+    for t, x in zip(ins, xs):
+        if "..." in t:
+            head, tail = t.split("...")
+            pos = list(range(len(head))) + list(range(x.ndim - len(tail), x.ndim))
+            t = head + tail
+        else:
+            pos = list(range(len(t)))
+        for p, ch in zip(pos, t):
+            if p < x.ndim:
+                size.setdefault(ch, set()).add(x.shape[p])
+    return any(len(v) > 1 for v in size.values())
 
 
 # ---------------------------------------------------------------------------------------------
 # decompositions
 
-def tsqr_recurses(chunks):
-    """Mirror of the recursion condition in dask.array.linalg.tsqr (evidence only, never an oracle)."""
-    rows, cc = chunks[0], chunks[1][0]
+def _tsqr_levels(rows, cc, max_v=None, depth=0):
+    """Mirror of the recursion in dask.array.linalg.tsqr (evidence only, never an oracle): (number of recursive levels,
+    True when some level stacks a piece with fewer rows than columns that is not the last piece of its group)."""
+    rows = list(rows)
+    if not rows or depth > 12:
+        return 0, False
     nr, cr_max = len(rows), max(rows)
-    return cr_max >= 2 * cc and int(np.ceil(nr * cc / cr_max)) > 1 if cr_max else False
+    if not cr_max:
+        return 0, False
+    if not ((cr_max if max_v is None else max_v) >= 2 * cc and int(np.ceil(nr * cc / cr_max)) > 1):
+        return 0, False
+    groups, cur, cur_sz = [], [], 0
+    for a_m in rows:
+        m_r = min(a_m, cc)
+        if cur_sz + m_r > cr_max:
+            groups.append(cur)
+            cur, cur_sz = [], 0
+        cur.append(m_r)
+        cur_sz += m_r
+    if cur:
+        groups.append(cur)
+    short_inner = any(m_r < cc for g in groups for m_r in g[:-1])
+    lv, s2 = _tsqr_levels([sum(g) for g in groups], cc, cr_max, depth + 1)
+    return 1 + lv, short_inner or s2
+
+
+def tsqr_recurses(chunks):
+    return _tsqr_levels(chunks[0], chunks[1][0])[0] > 0
 
 
 def _maxabs(x):
@@ -531,20 +1083,49 @@ def _maxabs(x):
     return float(np.max(np.abs(x))) if x.size else 0.0
 
 
+def _eps(dtype):
+    dt = np.dtype(dtype)
+    return float(np.finfo(dt if dt.kind in "fc" else np.dtype("float64")).eps)
+
+
+def _wide(a):
+    a = np.asarray(a)
+    return a.astype("complex128" if a.dtype.kind == "c" else "float64")
+
+
+def _sign_rows(ctx, bad_fn, v, eps, n):
+    """coerce_signs=True: svd_flip makes every row of V sum to a non-negative number (documented normalisation)"""
+    ctx.count("coerce_signs_checked")
+    rs = np.real(_wide(v).sum(axis=1)) if v.size else np.zeros(0)
+    lim = 64.0 * eps * max(n, 1)
+    if (rs < -lim).any():
+        bad_fn("V-row-sum-negative", "coerce_signs=True but rows of V sum to %s (limit %.3g)" % (rs.tolist(), -lim))
+
+
 def _run_decomp(case, ctx):
     import dask
     import dask.array as da
 
     kind, m, n, mk, dtype = case["kind"], case["m"], case["n"], case["mk"], case["dtype"]
+    entry = case.get("entry", kind)
     chunks = A.chunks_of_desc(case["c"])
     a = _matrix(case["seed"], m, n, mk, dtype)
     dx = da.from_array(a, chunks=chunks)
+    unknown = case.get("unknown")
+    if unknown == "rows":
+        dx = dx[da.from_array(np.ones(m, dtype=bool), chunks=(chunks[0],))]
+    elif unknown == "cols":
+        dx = dx[:, da.from_array(np.ones(n, dtype=bool), chunks=(chunks[1],))]
     nbr, nbc = len(chunks[0]), len(chunks[1])
     ctx.nontrivial = A.has_split(chunks)
     ctx.sig = {k: v for k, v in case.items() if k not in ("seed", "threads")}
     ctx.op(kind + ":" + case["flavour"])
     k = min(m, n)
-    if nbr > 1 and nbc > 1:
+    if entry in ("tsqr", "tsqr_svd"):
+        path = "tsqr"
+    elif entry == "sfqr":
+        path = "sfqr"
+    elif nbr > 1 and nbc > 1:
         path = "grid"
     elif nbr > 1:
         path = "tsqr"
@@ -553,32 +1134,82 @@ def _run_decomp(case, ctx):
     else:
         path = "single" if nbc == 1 else "tsqr-of-transpose"
     flags = [path]
-    rec = False
-    if path == "tsqr":
-        rec = tsqr_recurses(chunks)
-    elif path == "tsqr-of-transpose":
-        rec = tsqr_recurses((chunks[1], chunks[0]))
+    rec, levels, short_inner = False, 0, False
+    if path == "tsqr" and not unknown:
+        levels, short_inner = _tsqr_levels(chunks[0], chunks[1][0])
+    elif path == "tsqr-of-transpose" and not unknown:
+        levels, short_inner = _tsqr_levels(chunks[1], chunks[0][0])
+    rec = levels > 0
     if rec:
         flags.append("recursive")
         ctx.count("tsqr_recursive")
-    short = (path == "tsqr" and any(r < n for r in chunks[0])) or (path == "tsqr-of-transpose" and any(c < m for c in chunks[1]))
+        if levels >= 2:
+            ctx.count("tsqr_recursive_two_levels")
+        if short_inner:
+            ctx.count("tsqr_recursive_short_block_not_last_of_group")
+    split = chunks[0] if path == "tsqr" else chunks[1] if path == "tsqr-of-transpose" else ()
+    width = n if path == "tsqr" else m
+    short = bool(split) and any(r < width for r in split)
     if short:
         ctx.count("tsqr_short_blocks")
+    if split and any(r == 0 for r in split):
+        ctx.count("tsqr_zero_height_blocks")
+        if rec:
+            ctx.count("tsqr_zero_height_blocks_recursive")
+    if path == "sfqr" and any(c == 0 for c in chunks[1]):
+        ctx.count("sfqr_zero_width_blocks")
     if (path == "tsqr" and m < n) or (path == "tsqr-of-transpose" and n < m):
         flags.append("shape-contradicts-chunking")
+        ctx.count("shape_contradicts_chunking")
+    if np.dtype(dtype).kind == "c":
+        flags.append("complex")
+    if unknown:
+        flags.append("unknown-chunks")
+        ctx.count("unknown_chunks")
+        if short:
+            ctx.count("unknown_chunks_short_blocks")
+    if m == n and path in ("tsqr", "sfqr", "tsqr-of-transpose"):
+        ctx.count("square_" + path)
     if mk in ("zero", "rankdef"):
         ctx.count("rank_deficient_or_zero")
+    if np.dtype(dtype).kind == "c":
+        ctx.count("complex_matrix")
+    elif np.dtype(dtype).kind == "i":
+        ctx.count("integer_matrix")
+    if entry != kind:
+        ctx.count("entry_" + entry)
     label = "%s:%s" % (kind, "&".join(flags))
-    eps = float(np.finfo(np.dtype(dtype)).eps)
-    norm = float(np.linalg.norm(a.astype("float64")))
+    eps = _eps(dtype)
+    aw = _wide(a)
+    norm = float(np.linalg.norm(aw))
     tol = 64.0 * eps * norm
     otol = 64.0 * eps * max(k, 1)
+    full = bool(case.get("full_matrices"))
 
     try:
         if kind == "qr":
-            outs = da.linalg.qr(dx)
+            if entry == "tsqr":
+                outs = da.linalg.tsqr(dx)
+            elif entry == "sfqr":
+                outs = da.linalg.sfqr(dx)
+            elif entry == "np":
+                outs = np.linalg.qr(dx)
+            else:
+                outs = da.linalg.qr(dx)
         else:
-            outs = da.linalg.svd(dx, coerce_signs=case.get("coerce_signs", True))
+            if entry == "tsqr_svd":
+                outs = da.linalg.tsqr(dx, compute_svd=True)
+            elif entry == "np":
+                outs = np.linalg.svd(dx, full_matrices=False)
+            elif full:
+                ctx.count("svd_full_matrices")
+                outs = da.linalg.svd(dx, coerce_signs=case.get("coerce_signs", True), full_matrices=True)
+            else:
+                outs = da.linalg.svd(dx, coerce_signs=case.get("coerce_signs", True))
+        outs = tuple(outs)
+        if not all(isinstance(o, da.Array) for o in outs):
+            ctx.violation(label + ":result-not-a-dask-array", "got %r" % ([type(o).__name__ for o in outs],))
+            return
         vals = dask.compute(*outs, scheduler=_sched(case))
     except NotImplementedError as ex:
         ctx.unsupported(str(ex).split("\n")[0])
@@ -597,7 +1228,8 @@ def _run_decomp(case, ctx):
     ctx.count("compared_" + kind + "_" + path)
 
     def bad(symptom, msg, **kw):
-        ctx.violation("%s:%s" % (label, symptom), msg, shape=[m, n], chunks=case["c"], matrix=mk, short_blocks=short, **kw)
+        ctx.violation("%s:%s" % (label, symptom), msg, shape=[m, n], chunks=case["c"], matrix=mk, short_blocks=short,
+                      entry=entry, dtype=dtype, **kw)
 
     eye = np.eye(k)
     if kind == "qr":
@@ -615,13 +1247,19 @@ def _run_decomp(case, ctx):
         e2 = _maxabs(np.tril(r, -1))
         if not e2 <= tol:
             bad("R-not-upper-triangular", "max|tril(R,-1)| = %.3g > %.3g" % (e2, tol))
-        e3 = _maxabs(q.astype("complex128" if q.dtype.kind == "c" else "float64") @ r - a)
+        e3 = _maxabs(_wide(q) @ r - aw)
         if not e3 <= tol:
             bad("QR!=A", "max|QR - A| = %.3g > %.3g" % (e3, tol))
         ctx.sample = {"kind": kind, "path": path, "recursive": rec, "shape": [m, n], "chunks": case["c"],
                       "err_orth": e1, "err_recon": e3, "tol": tol}
     else:
         u, s, v = (np.asarray(x) for x in vals)
+        if full:
+            # documented: full_matrices=True raises NotImplementedError; reduced factors must not be passed off as full ones
+            if u.shape != (m, m) or v.shape != (n, n):
+                ctx.violation("svd:full_matrices:reduced-factors-returned", "full_matrices=True returned U %s V %s for a "
+                              "(%d,%d) matrix instead of raising NotImplementedError" % (u.shape, v.shape, m, n))
+            return
         if u.shape != (m, k) or s.shape != (k,) or v.shape != (k, n):
             bad("shape", "U %s s %s V %s, expected (%d,%d) (%d,) (%d,%d)" % (u.shape, s.shape, v.shape, m, k, k, k, n))
             return
@@ -629,7 +1267,7 @@ def _run_decomp(case, ctx):
             mm = lazy_meta_mismatch(lazy, val)
             if mm and mm[0] != "lazy-dtype":
                 bad(mm[0], "%s: %s" % (nm, mm[1]))
-        s_np = np.linalg.svd(a.astype("float64"), compute_uv=False)
+        s_np = np.linalg.svd(aw, compute_uv=False)
         e0 = _maxabs(s.astype("float64") - s_np)
         if not e0 <= tol:
             bad("singular-values", "max|s - s_numpy| = %.3g > %.3g; s=%s numpy=%s" % (e0, tol, s.tolist(), s_np.tolist()))
@@ -641,12 +1279,346 @@ def _run_decomp(case, ctx):
         e2 = _maxabs(v @ v.conj().T - eye)
         if not e2 <= otol:
             bad("V-not-orthonormal", "max|V V^H - I| = %.3g > %.3g" % (e2, otol))
-        e3 = _maxabs((u.astype("float64") * s.astype("float64")) @ v.astype("float64") - a)
+        e3 = _maxabs((_wide(u) * s.astype("float64")) @ _wide(v) - aw)
         if not e3 <= tol:
             bad("USV!=A", "max|U diag(s) V - A| = %.3g > %.3g" % (e3, tol))
+        if case.get("coerce_signs", True) and entry != "tsqr_svd":
+            _sign_rows(ctx, (lambda sy, msg: ctx.violation("svd:coerce_signs:" + sy, msg, shape=[m, n], chunks=case["c"],
+                                                           path=path, entry=entry)), v, eps, n)
         ctx.sample = {"kind": kind, "path": path, "recursive": rec, "shape": [m, n], "chunks": case["c"],
                       "err_s": e0, "err_recon": e3, "tol": tol}
         # ---- sibling facet: the same matrix with the other coerce_signs setting (s may legitimately be shared) -------
-        cs2 = not case.get("coerce_signs", True)
-        S.check(ctx, "svd", "coerce_signs", tuple(outs), (lambda: tuple(da.linalg.svd(dx, coerce_signs=cs2))), va=tuple(vals),
+        if entry != "tsqr_svd":
+            cs2 = not case.get("coerce_signs", True)
+            S.check(ctx, "svd", "coerce_signs", tuple(outs), (lambda: tuple(da.linalg.svd(dx, coerce_signs=cs2))), va=tuple(vals),
+                    describe={"coerce_signs": cs2})
+
+
+# ---------------------------------------------------------------------------------------------
+# svd_compressed (exact regime)
+
+def _run_svdc(case, ctx):
+    import dask
+    import dask.array as da
+
+    m, n, mk, dtype, k = case["m"], case["n"], case["mk"], case["dtype"], case["k"]
+    chunks = A.chunks_of_desc(case["c"])
+    a = _matrix(case["seed"], m, n, mk, dtype)
+    dx = da.from_array(a, chunks=chunks)
+    ctx.nontrivial = A.has_split(chunks)
+    ctx.sig = {kk: v for kk, v in case.items() if kk not in ("seed", "threads")}
+    ctx.op("svd_compressed")
+    it, p = case["iterator"], case["p"]
+    label = "svd_compressed:%s%s" % (it, "&iterated" if p else "")
+    if len(chunks[0]) > 1 and len(chunks[1]) > 1:
+        ctx.count("svdc_two_dimensional_grid")
+    if p:
+        ctx.count("svdc_power_iterations")
+    if it == "QR":
+        ctx.count("svdc_iterator_QR")
+    if k < min(m, n):
+        ctx.count("svdc_truncated")
+    if case["compute"]:
+        ctx.count("svdc_compute_flag")
+    if mk in ("zero", "rankdef"):
+        ctx.count("rank_deficient_or_zero")
+
+    def mkseed():
+        return da.random.RandomState(case["rs"]) if case["seed_form"] == "RandomState" else case["rs"]
+
+    def call(kk=k, pp=p, cs=case["coerce_signs"]):
+        return tuple(da.linalg.svd_compressed(dx, kk, iterator=it, n_power_iter=pp, n_oversamples=case["n_oversamples"],
+                                              seed=mkseed(), compute=case["compute"], coerce_signs=cs))
+    try:
+        outs = call()
+        vals = dask.compute(*outs, scheduler=_sched(case))
+    except NotImplementedError as ex:
+        ctx.unsupported(str(ex).split("\n")[0])
+        return
+    except Exception as ex:  # noqa: BLE001
+        ctx.exception(ex, prefix=label)
+        return
+    ctx.count("compared")
+    ctx.count("compared_svd_compressed")
+    u, s, v = (np.asarray(x) for x in vals)
+
+    def bad(symptom, msg, **kw):
+        ctx.violation("%s:%s" % (label, symptom), msg, shape=[m, n], chunks=case["c"], matrix=mk, k=k, n_power_iter=p,
+                      n_oversamples=case["n_oversamples"], seed_form=case["seed_form"], compute=case["compute"], **kw)
+
+    if u.shape != (m, k) or s.shape != (k,) or v.shape != (k, n):
+        bad("shape", "U %s s %s V %s, expected (%d,%d) (%d,) (%d,%d)" % (u.shape, s.shape, v.shape, m, k, k, k, n))
+        return
+    for nm, lazy, val in (("U", outs[0], u), ("s", outs[1], s), ("V", outs[2], v)):
+        mm = lazy_meta_mismatch(lazy, val)
+        if mm and mm[0] != "lazy-dtype":
+            bad(mm[0], "%s: %s" % (nm, mm[1]))
+    eps = _eps(dtype)
+    aw = _wide(a)
+    norm = float(np.linalg.norm(aw))
+    otol = 64.0 * eps * max(k, 1)
+    eye = np.eye(k)
+    e1 = _maxabs(u.conj().T @ u - eye)
+    if not e1 <= otol:
+        bad("U-not-orthonormal", "max|U^H U - I| = %.3g > %.3g" % (e1, otol))
+    e2 = _maxabs(v @ v.conj().T - eye)
+    if not e2 <= otol:
+        bad("V-not-orthonormal", "max|V V^H - I| = %.3g > %.3g" % (e2, otol))
+    if (s < 0).any():
+        bad("singular-values-order", "negative singular value: %s" % (s.tolist(),))
+    # the tolerance follows the conditioning of the Gaussian test matrix (re-drawn: evidence for the tolerance only)
+    c = min(m, n)
+    try:
+        st = da.random.RandomState(case["rs"]) if case["seed_form"] == "RandomState" else da.random.default_rng(case["rs"])
+        om = st.standard_normal(size=(n, c), chunks=(chunks[1], (c,))).compute(scheduler="sync")
+        kappa = float(np.linalg.cond(om))
+    except Exception:  # noqa: BLE001
+        kappa = 1e3
+    if not np.isfinite(kappa):
+        kappa = 1e8
+    s_np = np.linalg.svd(aw, compute_uv=False)
+    amp = 1.0
+    if p and it == "power":
+        big = s_np[s_np > s_np[0] * eps * max(m, n)] if s_np.size and s_np[0] > 0 else s_np[:0]
+        amp = float(big[0] / big[-1]) ** (2 * p) if big.size else 1.0
+    tol = 64.0 * eps * norm * max(kappa, 1.0) * amp
+    if tol > 1e-3 * norm and norm > 0:
+        ctx.count("svdc_tolerance_too_wide")
+    else:
+        ctx.count("svdc_accuracy_checked")
+        e0 = _maxabs(s.astype("float64") - s_np[:k])
+        if not e0 <= tol:
+            bad("singular-values", "max|s - s_numpy[:k]| = %.3g > %.3g; s=%s numpy=%s" % (e0, tol, s.tolist(), s_np[:k].tolist()),
+                cond_test_matrix=kappa)
+        if (np.diff(s) > tol).any():
+            bad("singular-values-order", "s not descending: %s" % (s.tolist(),))
+        opt = float(np.sqrt((s_np[k:] ** 2).sum()))
+        e3 = float(np.linalg.norm((_wide(u) * s.astype("float64")) @ _wide(v) - aw))
+        if not e3 <= opt + tol:
+            bad("USV-not-best-rank-k", "||A - U diag(s) V||_F = %.6g, optimal %.6g, tolerance %.3g" % (e3, opt, tol),
+                cond_test_matrix=kappa)
+    if case["coerce_signs"]:
+        _sign_rows(ctx, (lambda sy, msg: ctx.violation("svd_compressed:coerce_signs:" + sy, msg, shape=[m, n], chunks=case["c"])),
+                   v, eps, n)
+    ctx.sample = {"kind": "svd_compressed", "shape": [m, n], "chunks": case["c"], "k": k, "cond": kappa, "tol": tol}
+    which = S.pick(case, 2, salt="svdc-sib")
+    if which == 0 and min(m, n) > 1:
+        k2 = k - 1 if k > 1 else k + 1
+        S.check(ctx, "svd_compressed", "k", tuple(outs), (lambda: call(kk=k2)), va=tuple(vals), describe={"k": k2})
+    else:
+        cs2 = not case["coerce_signs"]
+        S.check(ctx, "svd_compressed", "coerce_signs", tuple(outs), (lambda: call(cs=cs2)), va=tuple(vals),
                 describe={"coerce_signs": cs2})
+
+
+# ---------------------------------------------------------------------------------------------
+# norm
+
+def _ord(v):
+    return {"inf": np.inf, "-inf": -np.inf}.get(v, v) if isinstance(v, str) else v
+
+
+def _run_norm(case, ctx):
+    import dask.array as da
+
+    x = _tensor(case["seed"], tuple(case["s"][0]), case["d"][0])
+    cs = A.chunks_of_desc(case["c"][0])
+    dx = da.from_array(x, chunks=cs)
+    ctx.nontrivial = A.has_split(cs)
+    ctx.sig = {k: v for k, v in case.items() if k not in ("seed", "threads")}
+    ctx.op("norm")
+    ordv, axis, keep = _ord(case["ord"]), case["axis"], case["keepdims"]
+    ax = tuple(axis) if isinstance(axis, list) else axis
+    nd = x.ndim
+    if ax is None:
+        red = list(range(nd))
+        shape_class = "flattened" if (nd > 2 or (nd == 2 and ordv is None)) else ("vector" if nd == 1 else "matrix")
+    elif isinstance(ax, tuple):
+        red = [v % nd for v in ax]
+        shape_class = "matrix"
+    else:
+        red = [ax % nd]
+        shape_class = "vector"
+    flags = [shape_class, "ord=%s" % (case["ord"],)]
+    if keep:
+        flags.append("keepdims")
+        ctx.count("norm_keepdims")
+    if ax is not None and any(v < 0 for v in (ax if isinstance(ax, tuple) else (ax,))):
+        ctx.count("norm_negative_axis")
+    if isinstance(ax, tuple) and red[0] > red[1]:
+        ctx.count("norm_axis_pair_reversed")
+    ctx.count("norm_" + shape_class)
+    ctx.count("norm_ord_%s" % (case["ord"],))
+    if nd >= 3:
+        ctx.count("norm_3d_or_4d")
+    intin = x.dtype.kind in "iub"
+    label = "norm:" + "&".join(flags)
+    f = np.linalg.norm if case["form"] == "np_func" else da.linalg.norm
+    try:
+        e = np.linalg.norm(x, ordv, ax, keep)
+    except Exception as ex:  # noqa: BLE001
+        ctx.reject("numpy: %s: %s" % (type(ex).__name__, ex))
+        return
+    try:
+        r = f(dx, ordv, ax, keep)
+        if not isinstance(r, da.Array):
+            ctx.violation(label + ":result-not-a-dask-array", "got %r" % (type(r),))
+            return
+        rv = r.compute(scheduler=_sched(case))
+    except NotImplementedError as ex:
+        ctx.unsupported(str(ex).split("\n")[0])
+        return
+    except Exception as ex:  # noqa: BLE001
+        if intin and isinstance(ex, TypeError):
+            ctx.violation("norm:integer-or-bool-input:TypeError", "%s: %s" % (type(ex).__name__, ex), ord=case["ord"],
+                          dtype=str(x.dtype))
+        elif nd > 2 and ax is None and ordv is None and isinstance(ex, ValueError):
+            ctx.violation("norm:ndim>2&axis-None&ord-None:ValueError", "%s: %s" % (type(ex).__name__, ex), shape=list(x.shape))
+        else:
+            ctx.exception(ex, prefix=label)
+        return
+    ctx.count("compared")
+    ctx.count("compared_norm")
+    nred = int(np.prod([x.shape[v] for v in red])) if red else 1
+    ea = np.asarray(e)
+    if case["ord"] in ("nuc", 2, -2) and shape_class == "matrix":
+        ctx.count("norm_through_svd")
+        eps_ratio = 1.0
+        m = compare_arrays(rv, e, exact=False, n=max(min(x.shape[red[0]], x.shape[red[1]]), 1),
+                           scale=float(np.linalg.norm(_wide(x))), factor=64.0, check_dtype=not intin)
+    else:
+        m = compare_arrays(rv, e, exact=False, n=max(nred, 1), scale=float(np.max(np.abs(ea), initial=0.0)) or 1.0,
+                           factor=16.0, check_dtype=not intin)
+    if intin and np.asarray(rv).dtype != ea.dtype:
+        ctx.violation("norm:integer-or-bool-input:dtype", "dtype %s vs expected %s" % (np.asarray(rv).dtype, ea.dtype),
+                      ord=case["ord"], dtype=str(x.dtype))
+    if m:
+        ctx.violation("%s:%s" % (label, m[0]), m[1], result=repr(rv)[:300], expected=repr(e)[:300], axis=axis,
+                      shape=list(x.shape), chunks=case["c"][0], dtype=str(x.dtype))
+    else:
+        mm = lazy_meta_mismatch(r, rv)
+        if mm and not (intin and mm[0] == "lazy-dtype"):
+            ctx.violation("%s:%s" % (label, mm[0]), mm[1])
+    ctx.sample = {"kind": "norm", "ord": case["ord"], "axis": axis, "keepdims": keep, "shape": list(x.shape),
+                  "chunks": case["c"][0]}
+    # ---- sibling: one of ord / keepdims / axis changed ----
+    which = S.pick(case, 3, salt="norm-sib")
+    if which == 0:
+        o2 = 1 if ordv is None or ordv == "fro" else None
+        S.check(ctx, "norm", "ord", r, (lambda: da.linalg.norm(dx, o2, ax, keep)), va=rv, describe={"ord": o2})
+    elif which == 1:
+        S.check(ctx, "norm", "keepdims", r, (lambda: da.linalg.norm(dx, ordv, ax, not keep)), va=rv,
+                describe={"keepdims": not keep})
+    elif nd >= 2 and ax is not None:
+        if isinstance(ax, tuple):
+            ax2 = (ax[1], ax[0]) if case["ord"] in (1, -1, "inf", "-inf") else None
+        else:
+            ax2 = (ax % nd + 1) % nd
+        if ax2 is not None:
+            S.check(ctx, "norm", "axis", r, (lambda: da.linalg.norm(dx, ordv, ax2, keep)), va=rv, describe={"axis": ax2})
+
+
+# ---------------------------------------------------------------------------------------------
+# scipy-backed functions
+
+def _spd(seed, n, dtype):
+    r = np.random.default_rng(seed)
+    b = r.standard_normal((n, n))
+    if np.dtype(dtype).kind == "c":
+        b = b + 1j * r.standard_normal((n, n))
+    return (b @ b.conj().T + n * np.eye(n)).astype(dtype)
+
+
+def _scipy_missing(ex):
+    return isinstance(ex, ImportError) and "scipy" in str(ex)
+
+
+def _run_cholesky(case, ctx):
+    import dask.array as da
+
+    n, dtype, lower = case["n"], case["dtype"], case["lower"]
+    a = _spd(case["seed"], n, dtype)
+    c = tuple(case["c"])
+    dx = da.from_array(a, chunks=(c, c))
+    ctx.nontrivial = len(c) > 1
+    ctx.sig = {k: v for k, v in case.items() if k not in ("seed", "threads")}
+    ctx.op("cholesky")
+    label = "cholesky:%s" % ("lower" if lower else "upper")
+    try:
+        r = da.linalg.cholesky(dx, lower=lower)
+        rv = np.asarray(r.compute(scheduler=_sched(case)))
+    except Exception as ex:  # noqa: BLE001
+        if _scipy_missing(ex):
+            ctx.count("scipy_backed_cannot_run")
+            ctx.envlimited("cholesky of several blocks needs scipy.linalg.solve_triangular: %s" % (ex,))
+            return
+        ctx.exception(ex, prefix=label)
+        return
+    ctx.count("compared")
+    ctx.count("compared_cholesky")
+    if lower:
+        ctx.count("cholesky_lower")
+    eps = _eps(dtype)
+    tol = 64.0 * eps * float(np.linalg.norm(a)) * max(n, 1)
+    if rv.shape != (n, n):
+        ctx.violation(label + ":shape", "shape %s, expected (%d,%d)" % (rv.shape, n, n))
+        return
+    off = np.triu(rv, 1) if lower else np.tril(rv, -1)
+    if _maxabs(off):
+        ctx.violation(label + ":not-triangular", "the %s factor has entries on the other side: %s"
+                      % ("lower" if lower else "upper", repr(rv)[:300]))
+    w = _wide(rv)
+    rec = w @ w.conj().T if lower else w.conj().T @ w
+    e = _maxabs(rec - a)
+    if not e <= tol:
+        ctx.violation(label + ":reconstruction", "max|%s - A| = %.3g > %.3g" % ("L L^H" if lower else "U^H U", e, tol))
+    S.check(ctx, "cholesky", "lower", r, (lambda: da.linalg.cholesky(dx, lower=not lower)), va=rv, describe={"lower": not lower})
+
+
+def _run_scipy(case, ctx):
+    """lu / solve / solve_triangular / inv / lstsq / cholesky of several blocks: scipy is absent here, so the call is made
+    and its ModuleNotFoundError counted; with scipy present the residual of the defining equation is checked."""
+    import dask
+    import dask.array as da
+
+    fn, bnd = case["fn"], case["bnd"]
+    n, c = 4, 2
+    a = _spd(case["seed"], n, "float64")
+    rb = np.random.default_rng(case["seed"] + 7)
+    b = rb.standard_normal((n,) if bnd == 1 else (n, 3))
+    da_, db = da.from_array(a, chunks=c), da.from_array(b, chunks=(c,) if bnd == 1 else (c, 3))
+    ctx.nontrivial = True
+    ctx.sig = {k: v for k, v in case.items() if k not in ("seed", "threads")}
+    ctx.op("scipy:" + fn)
+    tol = 1e-9 * float(np.linalg.norm(a)) * max(float(np.linalg.norm(b)), 1.0)
+    try:
+        if fn == "lu":
+            p, l, u = dask.compute(*da.linalg.lu(da_), scheduler="sync")
+            err = _maxabs(p @ l @ u - a)
+        elif fn in ("solve", "solve-pos"):
+            x = da.linalg.solve(da_, db, **({"assume_a": "pos"} if fn == "solve-pos" else {})).compute(scheduler="sync")
+            err = _maxabs(a @ x - b)
+        elif fn == "inv":
+            x = da.linalg.inv(da_).compute(scheduler="sync")
+            err = _maxabs(a @ x - np.eye(n))
+        elif fn == "solve_triangular":
+            t = np.tril(a) if case["lower"] else np.triu(a)
+            x = da.linalg.solve_triangular(da.from_array(t, chunks=c), db, lower=case["lower"]).compute(scheduler="sync")
+            err = _maxabs(t @ x - b)
+        elif fn == "lstsq":
+            x = da.linalg.lstsq(da.from_array(a, chunks=(c, n)), db)[0].compute(scheduler="sync")
+            err = _maxabs(a @ x - b)
+        else:
+            x = da.linalg.cholesky(da_, lower=case["lower"]).compute(scheduler="sync")
+            err = _maxabs((x @ x.T if case["lower"] else x.T @ x) - a)
+    except Exception as ex:  # noqa: BLE001
+        if _scipy_missing(ex):
+            ctx.count("scipy_backed_cannot_run")
+            ctx.envlimited("%s needs scipy.linalg: %s" % (fn, ex))
+            return
+        ctx.exception(ex, prefix="scipy-backed:" + fn)
+        return
+    ctx.count("compared")
+    ctx.count("scipy_backed_ran")
+    if not err <= tol:
+        ctx.violation("scipy-backed:%s:residual" % fn, "residual of the defining equation %.3g > %.3g" % (err, tol))
